@@ -230,6 +230,7 @@ pub struct Exec<'a, RK: RadioKind> {
     rx_ctx: Option<(u8, u8, bool, u8)>, // ch, dr, implicit, len of the last prepare_for_rx
     cad_ctx: Option<(u8, u8)>,
     lw_rx_set: bool,
+    init_failed: bool,
     pub stats: RunStats,
     shape: Fnv,
     pub violation: Option<Violation>,
@@ -246,14 +247,17 @@ fn has(case: &C14Case, tag: &str) -> bool {
 }
 
 impl<'a, RK: RadioKind> Exec<'a, RK> {
-    pub fn new(rk: RK, world: WorldRef, case: &'a C14Case) -> Self {
+    /// Build the device. A fault-free `LoRa::new` that fails or panics is the device's problem, not the harness's.
+    pub fn new(rk: RK, world: WorldRef, case: &'a C14Case) -> Result<Self, Violation> {
         world.borrow_mut().begin_call("new", None);
-        let lora = match drive_now(&world, LoRa::new(rk, true, SimDelay(world.clone()))) {
-            Driven::Ready(Ok(l)) => l,
-            Driven::Ready(Err(e)) => panic!("harness: fault-free LoRa::new failed: {e:?}"),
-            Driven::Dropped(p) => panic!("harness: fault-free LoRa::new pending: {p:?}"),
+        let fam = case.chip.family();
+        let lora = match guarded(|| drive_now(&world, LoRa::new(rk, true, SimDelay(world.clone())))) {
+            Ok(Driven::Ready(Ok(l))) => l,
+            Ok(Driven::Ready(Err(e))) => return Err(Violation::new("C14.no-recovery", &format!("{fam}|new"), format!("fault-free LoRa::new failed: {e:?}"))),
+            Ok(Driven::Dropped(p)) => return Err(Violation::new("C14.no-recovery", &format!("{fam}|new"), format!("fault-free LoRa::new never completed ({p:?})"))),
+            Err(p) => return Err(Violation::new("C14.panic", &format!("{fam}|new|{}", short_loc(&p.loc)), format!("fault-free LoRa::new panicked at {} ({})", p.loc, p.msg))),
         };
-        Exec {
+        Ok(Exec {
             world,
             radio: lora.into(),
             case,
@@ -263,10 +267,11 @@ impl<'a, RK: RadioKind> Exec<'a, RK> {
             rx_ctx: None,
             cad_ctx: None,
             lw_rx_set: false,
+            init_failed: false,
             stats: RunStats::default(),
             shape: Fnv::new(),
             violation: None,
-        }
+        })
     }
 
     fn lora(&mut self) -> &mut LoRa<RK, SimDelay> {
@@ -426,7 +431,10 @@ impl<'a, RK: RadioKind> Exec<'a, RK> {
     fn take_alert(&mut self) {
         let a = self.world.borrow_mut().env.alerts.first().cloned();
         if let Some(a) = a {
-            self.violate(a.invariant, a.detail, a.message);
+            // context: did an init() fail after pulsing NRESET, with no successful init() since?
+            let ctx = if self.init_failed { "after-failed-init" } else { "normal" };
+            let msg = if self.init_failed { format!("{} [an earlier init() failed after resetting the chip]", a.message) } else { a.message };
+            self.violate(a.invariant, format!("{ctx}|{}", a.detail), msg);
         }
     }
 
@@ -529,6 +537,9 @@ impl<'a, RK: RadioKind> Exec<'a, RK> {
             return false;
         }
 
+        if matches!(step.op, Op::Init) {
+            self.init_failed = res != Res::Ok && log.other > 0;
+        }
         // ---- monitors (b) and (c): raised by the chip model ----
         self.take_alert();
 
@@ -581,7 +592,7 @@ impl<'a, RK: RadioKind> Exec<'a, RK> {
                 };
                 self.violate(
                     "C14.not-standby-after-failure",
-                    format!("{fam}|{}|{e}|chip-standby={chip_sb}|driver={:?}", step.op.name(), hm1),
+                    format!("{e}|{fam}|{}|chip-standby={chip_sb}|driver={:?}", step.op.name(), hm1),
                     format!("{}() failed with {:?}; afterwards the chip is{} in standby and the driver believes {:?}", step.op.name(), res, if chip_sb { "" } else { " not" }, hm1),
                 );
             }
